@@ -79,6 +79,14 @@ func (r *HandDec) UnmarshalJSON(data []byte) error {
 	return nil
 }
 
+// interface-typed fields: whatever a faithful value decodes to (a float64 number, a string, nil) comes back
+// @fp.Value
+// @fp.Json
+type WithAny struct {
+	id    int
+	extra any
+}
+
 type Audit struct {
 	Rev int
 	By  string
@@ -348,6 +356,21 @@ func VH_c15_hand_written_codec_half() {
 	var z HandEnc
 	e6 := json.Unmarshal(b2, &z)
 	zz.Assert(e5 == nil && e6 == nil && z.a == x.a && z.b == x.b, "json.Unmarshal(json.Marshal(x)) = x with a hand-written encoder")
+}
+
+func VH_c15_interface_typed_field() {
+	var e any
+	switch zz.Choice("extra", 3) {
+	case 0:
+		e = float64(3)
+	case 1:
+		e = "s"
+	}
+	x := WithAny{id: zz.Int("x.id"), extra: e}
+	b, err := x.MarshalJSON()
+	y := WithAny{id: zz.Int("y.id")}
+	err2 := y.UnmarshalJSON(b)
+	zz.Assert(err == nil && err2 == nil && y.id == x.id && y.extra == x.extra, "Unmarshal(Marshal(x)) = x for an @fp.Json struct with an interface-typed field (a number stays a float64)")
 }
 
 func VH_c15_embedded_struct() {
